@@ -190,4 +190,83 @@ theorem fmtFields_norm : ∀ (kvs : List (Bytes × Exp)) (vp : Bytes) (w : Nat),
     simp only [normKV, fmtFields, single_norm, fmt_norm v vp hw.1.2, fmtFields_norm r vp w hw.2]
 end
 
+
+/-! ## the normal form is well-formed and normal -/
+
+mutual
+theorem wf_norm : ∀ e : Exp, wf e = true → wf (norm e) = true
+  | .null, _ => rfl
+  | .nilArr, _ => rfl
+  | .bool _, _ => rfl
+  | .int _, h => h
+  | .str _, h => h
+  | .ref .., h => h
+  | .float t, hw => by
+    simp only [norm]
+    split
+    · exact hw
+    · rename_i hft
+      simp only [wf, hft, Bool.false_or] at hw
+      unfold isCanonInt at hw
+      cases hp : parseInt t with
+      | none => simp [hp] at hw
+      | some i =>
+        simp only [hp, Bool.and_eq_true] at hw
+        simp only [wf, hw.2]
+  | .arr xs, hw => by
+    simp only [wf] at hw
+    simp only [norm, wf]
+    exact wfL_norm xs hw
+  | .map kvs, hw => by
+    simp only [wf, Bool.and_eq_true] at hw
+    simp only [norm, wf, Bool.and_eq_true, sortedKeys_normKV]
+    exact ⟨hw.1, wfKV_norm false kvs hw.2⟩
+  | .struct [], _ => by simp [norm, wf, sortedKeys, wfKV]
+  | .struct (kv :: r), hw => by
+    simp only [wf, Bool.and_eq_true] at hw
+    simp only [norm, wf, Bool.and_eq_true, sortedKeys_normKV]
+    exact ⟨hw.1, wfKV_norm true (kv :: r) hw.2⟩
+theorem wfL_norm : ∀ xs : List Exp, wfL xs = true → wfL (normL xs) = true
+  | [], _ => rfl
+  | x :: r, hw => by
+    simp only [wfL, Bool.and_eq_true] at hw
+    simp only [normL, wfL, Bool.and_eq_true]
+    exact ⟨wf_norm x hw.1, wfL_norm r hw.2⟩
+theorem wfKV_norm (b : Bool) : ∀ kvs : List (Bytes × Exp), wfKV b kvs = true → wfKV b (normKV kvs) = true
+  | [], _ => rfl
+  | (k, v) :: r, hw => by
+    simp only [wfKV, Bool.and_eq_true] at hw
+    simp only [normKV, wfKV, Bool.and_eq_true]
+    exact ⟨⟨hw.1.1, wf_norm v hw.1.2⟩, wfKV_norm b r hw.2⟩
+end
+
+mutual
+theorem norm_norm : ∀ e : Exp, norm (norm e) = norm e
+  | .null => rfl
+  | .nilArr => rfl
+  | .bool _ => rfl
+  | .int _ => rfl
+  | .str _ => rfl
+  | .ref .. => rfl
+  | .float t => by
+    by_cases hft : isFloatTok t = true
+    · simp [norm, hft]
+    · cases hp : parseInt t with
+      | none => simp [norm, hft, hp]
+      | some i => simp [norm, hft, hp]
+  | .arr xs => by simp only [norm, normL_normL xs]
+  | .map kvs => by simp only [norm, normKV_normKV kvs]
+  | .struct [] => rfl
+  | .struct ((k, v) :: r) => by
+    have := normKV_normKV ((k, v) :: r)
+    simp only [normKV] at this
+    simp only [norm, normKV, this]
+theorem normL_normL : ∀ xs : List Exp, normL (normL xs) = normL xs
+  | [] => rfl
+  | x :: r => by simp only [normL, norm_norm x, normL_normL r]
+theorem normKV_normKV : ∀ kvs : List (Bytes × Exp), normKV (normKV kvs) = normKV kvs
+  | [] => rfl
+  | (k, v) :: r => by simp only [normKV, norm_norm v, normKV_normKV r]
+end
+
 end Martian.FormatExp
